@@ -79,16 +79,7 @@ func runC06(c *Ctx) {
 			}
 		}
 	}
-	for f, r := range m.Rbp {
-		for _, ret := range m.operandBypass(p, f, r) {
-			c.violated("R1", "rbp-bypass "+shortName(f), p.InstrPos(ret), "this parselet can return a node without having parsed its operand through the precedence-climbing function: on that path the operand is taken with a different binding power, so the grouping matrix does not describe it (e.g. a suffix then attaches to the whole prefix expression)")
-		}
-		if strings.HasPrefix(r.Why, "UNDECIDED") {
-			c.undecided("R1", "rbp "+shortName(f), p.Pos(f.Pos()), r.Why)
-		} else {
-			c.ok("R1", "rbp "+shortName(f), p.Pos(f.Pos()), describeRbp(r))
-		}
-	}
+	prattParselets(c, m)
 
 	// R2: the matrix
 	cells, bad := 0, 0
@@ -631,4 +622,19 @@ func tagsOfConsume(call ssa.CallInstruction) map[int64]bool {
 		}
 	}
 	return out
+}
+
+// prattParselets: the right binding power of every parselet and the operand-bypass rule (R1)
+func prattParselets(c *Ctx, m *prattModel) {
+	p := c.P
+	for f, r := range m.Rbp {
+		for _, ret := range m.operandBypass(p, f, r) {
+			c.violated("R1", "rbp-bypass "+shortName(f), p.InstrPos(ret), "this parselet can return a node without having parsed its operand through the precedence-climbing function: on that path the operand is taken with a different binding power, so the grouping matrix does not describe it (e.g. a suffix then attaches to the whole prefix expression)")
+		}
+		if strings.HasPrefix(r.Why, "UNDECIDED") {
+			c.undecided("R1", "rbp "+shortName(f), p.Pos(f.Pos()), r.Why)
+		} else {
+			c.ok("R1", "rbp "+shortName(f), p.Pos(f.Pos()), describeRbp(r))
+		}
+	}
 }
